@@ -84,7 +84,7 @@ def cmd_check(argv):
         params = sc.get('params', {})
         scen_params[mod] = params
         cap = sc.get('wall_cap', {}).get(tier, 1200.0 if tier == 'thorough' else 240.0)
-        dt = sw.run(mod, n, params, wall_cap=cap, chunk=sc.get('chunk'))
+        dt = sw.run(mod, n, params, wall_cap=cap, chunk=sc.get('chunk'), seed_offset=sc.get('seed_offset', 0))
         print(f'[vcheck] {mod}: {sw.per_scenario.get(mod, {}).get("runs", 0)}/{n} runs in {dt:.1f}s')
 
     harness_error = False
